@@ -219,6 +219,24 @@ pub fn unpin_local() {
     astrolabe::verif::set_now(None);
 }
 
+/// One value in eight (decided from the instant and the offset, so a replayed case behaves the
+/// same) is carried as `Offset::Local` under `pin_local`: returns the value and whether it is.
+/// The pin stays in force until the engine clears it after the case (`unpin_local`), so at most
+/// one value per case may be built this way.
+pub fn mk_dt_off_pin(instant: i128, offset: i32) -> (DateTime, bool) {
+    let h = (instant as u64).wrapping_mul(0x9E37_79B9_7F4A_7C15) ^ ((instant >> 41) as u64) ^ (offset as u32 as u64).wrapping_mul(0xD6E8_FEB8_6659_FD93);
+    let day = instant.div_euclid(tl::DAY_NS) as i64;
+    if (h >> 17) % 8 != 0 || day < cal::MIN_DAY + 3 || day > cal::MAX_DAY - 3 {
+        return (mk_dt_off_any(instant, offset), false);
+    }
+    let now = -1_900_000_000 + ((h >> 23) % 4_000_000_000) as i64;
+    if !local_now_ok(now) {
+        return (mk_dt_off_any(instant, offset), false);
+    }
+    pin_local(offset, now);
+    (mk_dt_off_any(instant, 0).set_offset(Offset::Local), true)
+}
+
 pub fn off_of_dt(dt: &DateTime) -> Offset {
     dt.get_offset()
 }
